@@ -262,7 +262,7 @@ func TestVerif_C16(t *testing.T) {
 		rep.Count("cache_sequences", 1)
 		rep.Count("cache_requests", int64(len(ms)))
 		rep.Count("cache_rejected_events", int64(rejected))
-		if i < 2 {
+		if rep.WantSample() {
 			rep.Sample(map[string]any{"handler": "cache", "capacity": capacity, "requests": c16Describe(ms)[:min(8, len(ms))], "replies": c16DescribeReplies(replies)[:min(12, len(replies))]})
 		}
 
@@ -510,7 +510,7 @@ func TestVerif_C16(t *testing.T) {
 		if strings.ContainsAny(shape, "Rx") {
 			rep.Nontrivial("sqlite/" + shape)
 		}
-		if i < 1 {
+		if rep.WantSample() {
 			rep.Sample(map[string]any{"handler": "sqlite", "exchange": log[:min(14, len(log))]})
 		}
 	})
